@@ -12,6 +12,7 @@ import (
 	_ "verif/harness/c08"
 	_ "verif/harness/c09"
 	_ "verif/harness/c10"
+	_ "verif/harness/c11"
 
 	"github.com/sdcio/yang-parser/verifrt"
 )
